@@ -44,7 +44,7 @@ pub fn can_empty(g: &J) -> bool {
         "group" | "grouparr" => g[1].as_array().unwrap().iter().all(can_empty),
         "or" => can_empty(&g[1]) || can_empty(&g[2]),
         "choice" | "choicev" => g[1].as_array().unwrap().iter().any(can_empty),
-        "ornot" | "not" | "rewind" | "recover" | "ref" | "var" | "enum" | "cfgrep" | "cfgrepmin" | "cfgrepmax" => true,
+        "ornot" | "not" | "rewind" | "recover" | "ref" | "var" | "enum" | "cfgrep" | "cfgrepmin" | "cfgrepmax" | "cfgreptry" => true,
         "andis" => can_empty(&g[1]),
         "rep" => g[2].as_u64() == Some(0) || can_empty(&g[1]),
         "sep" => g[3].as_u64() == Some(0) || can_empty(&g[1]),
@@ -61,7 +61,7 @@ fn wf_iter(it: &J) -> bool {
     match op(it) {
         "rep" => wf(&it[1]) && !can_empty(&it[1]),
         "sep" => wf(&it[1]) && wf(&it[2]) && !can_empty(&it[1]),
-        "enum" | "cfgrep" | "cfgrepmin" | "cfgrepmax" => matches!(op(&it[1]), "rep" | "sep") && wf_iter(&it[1]),
+        "enum" | "cfgrep" | "cfgrepmin" | "cfgrepmax" | "cfgreptry" => matches!(op(&it[1]), "rep" | "sep") && wf_iter(&it[1]),
         _ => false,
     }
 }
@@ -263,10 +263,10 @@ pub fn gen(r: &mut Rng, f: &Family, budget: usize) -> J {
             "labelctx" => json!(["label", gen(r, f, budget - 1), *r.pick(&["L", "M"]), true]),
             "maperr" => json!(["maperr", gen(r, f, budget - 1), "tag"]),
             "maperrid" => json!(["maperr", gen(r, f, budget - 1), "id"]),
-            "withctx" => json!(["withctx", r.pick(&[json!(["T", "a"]), json!(["S", ["a", "b"]]), json!(["I", 2]), json!(["T", "b"])]).clone(), gen(r, f, budget - 1)]),
+            "withctx" => json!(["withctx", r.pick(&[json!(["T", "a"]), json!(["S", ["a", "b"]]), json!(["I", 2]), json!(["T", "b"]), json!(["I", 3]), json!(["I", 1])]).clone(), gen(r, f, budget - 1)]),
             "mapctx" => json!(["mapctx", "f", gen(r, f, budget - 1)]),
             "mapnum" => json!(["map", gen(r, f, budget - 1), "num"]),
-            "cfgrep" => json!(["collect", [*r.pick(&["cfgrep", "cfgrepmin", "cfgrepmax"]), ["rep", non_empty(r, f, budget - 1), b.0, b.1]], "vec"]),
+            "cfgrep" => json!(["collect", [*r.pick(&["cfgrep", "cfgrepmin", "cfgrepmax", "cfgreptry"]), ["rep", non_empty(r, f, budget - 1), b.0, b.1]], "vec"]),
             "cfgrun" => json!(["run", ["cfgrep", ["rep", non_empty(r, f, budget - 1), 0, -1]]]),
             // guarded recursion templates: a token is consumed before every self reference
             "recA" => json!([*r.pick(&["rec", "recd"]), ["or", ["then", non_empty(r, f, budget - 1), ["ref", 1]], r.pick(&f.leaves).clone()]]),
